@@ -268,13 +268,16 @@ def hutchens1_unit():
 
 def units(tier):
     return [('rod1d/' + bc, {'kind': 'rod', 'bc': bc}) for bc in H.BCS] + [('sandwich/' + n_, {'kind': 'sw', 'sname': n_}) for n_ in ('PlanarSandwich', 'PlanarSandwichHot', 'PlanarSandwichHalf')] + \
-        [('rectangle', {'kind': 'rect'}), ('hutchens1', {'kind': 'h1'}), ('cylsandwich', {'kind': 'cyl'})]
+        [('rectangle', {'kind': 'rect'}), ('hutchens1', {'kind': 'h1'}), ('cylsandwich', {'kind': 'cyl'}), ('hutchens2', {'kind': 'h2'})]
 
 
 def run_unit(name, kind, bc=None, **kw):
     if kind == 'rod': return rod_unit(bc)
     if kind == 'sw': return sandwich_unit(kw['sname'])
     if kind == 'rect': return rect_unit()
+    if kind == 'h2':
+        from props import hutchens2_kit
+        return hutchens2_kit.unit()
     if kind == 'cyl':
         from props import cylsandwich_kit
         return cylsandwich_kit.unit()
